@@ -339,6 +339,7 @@ func (s *sys) key() string {
 
 type Result struct {
 	States, Transitions, Depth int
+	Fixpoint                   bool // the frontier ran empty: every reachable state was expanded
 	Problems                   []Problem
 	Sample                     []string
 	HarnessErr                 string
@@ -392,6 +393,7 @@ func Explore(root string, st Start, depth int) Result {
 		}
 	}
 	res.States = len(seen) + 1
+	res.Fixpoint = len(frontier) == 0
 	return res
 }
 
